@@ -104,13 +104,20 @@ type builder struct {
 	config     *DotConfig
 }
 
+// formatValue formats a value with the configured formatter. The result may
+// contain a unit taken from the profile, so it is escaped for use inside a
+// quoted DOT string.
+func (b *builder) formatValue(v int64) string {
+	return escapeForDot(b.config.FormatValue(v))
+}
+
 // start generates a title and initial node in DOT format.
 func (b *builder) start() {
 	graphname := "unnamed"
 	if b.config.Title != "" {
 		graphname = b.config.Title
 	}
-	fmt.Fprintln(b, `digraph "`+graphname+`" {`)
+	fmt.Fprintln(b, `digraph "`+escapeForDot(graphname)+`" {`)
 	fmt.Fprintln(b, `node [style=filled fillcolor="#f8f8f8"]`)
 }
 
@@ -129,10 +136,10 @@ func (b *builder) addLegend() {
 	fmt.Fprintf(b, `subgraph cluster_L { "%s" [shape=box fontsize=16`, escapeForDot(title))
 	fmt.Fprintf(b, ` label="%s\l"`, strings.Join(escapeAllForDot(labels), `\l`))
 	if b.config.LegendURL != "" {
-		fmt.Fprintf(b, ` URL="%s" target="_blank"`, b.config.LegendURL)
+		fmt.Fprintf(b, ` URL="%s" target="_blank"`, escapeForDot(b.config.LegendURL))
 	}
 	if b.config.Title != "" {
-		fmt.Fprintf(b, ` tooltip="%s"`, b.config.Title)
+		fmt.Fprintf(b, ` tooltip="%s"`, escapeForDot(b.config.Title))
 	}
 	fmt.Fprintf(b, "] }\n")
 }
@@ -150,7 +157,7 @@ func (b *builder) addNode(node *Node, nodeID int, maxFlat float64) {
 		label = multilinePrintableName(&node.Info)
 	}
 
-	flatValue := b.config.FormatValue(flat)
+	flatValue := b.formatValue(flat)
 	if flat != 0 {
 		label = label + fmt.Sprintf(`%s (%s)`,
 			flatValue,
@@ -165,7 +172,7 @@ func (b *builder) addNode(node *Node, nodeID int, maxFlat float64) {
 		} else {
 			label = label + " "
 		}
-		cumValue = b.config.FormatValue(cum)
+		cumValue = b.formatValue(cum)
 		label = label + fmt.Sprintf(`of %s (%s)`,
 			cumValue,
 			strings.TrimSpace(measurement.Percentage(cum, b.config.Total)))
@@ -205,7 +212,7 @@ func (b *builder) addNode(node *Node, nodeID int, maxFlat float64) {
 
 		// Add URL if specified. target="_blank" forces the link to open in a new tab.
 		if attrs.URL != "" {
-			attr += fmt.Sprintf(` URL="%s" target="_blank"`, attrs.URL)
+			attr += fmt.Sprintf(` URL="%s" target="_blank"`, escapeForDot(attrs.URL))
 		}
 	}
 
@@ -246,8 +253,8 @@ func (b *builder) addNodelets(node *Node, nodeID int) bool {
 		if w == 0 {
 			continue
 		}
-		weight := b.config.FormatValue(w)
-		nodelets += fmt.Sprintf(`N%d_%d [label = "%s" id="N%d_%d" fontsize=8 shape=box3d tooltip="%s"]`+"\n", nodeID, i, t.Name, nodeID, i, weight)
+		weight := b.formatValue(w)
+		nodelets += fmt.Sprintf(`N%d_%d [label = "%s" id="N%d_%d" fontsize=8 shape=box3d tooltip="%s"]`+"\n", nodeID, i, escapeLabelTagForDot(t.Name), nodeID, i, weight)
 		nodelets += fmt.Sprintf(`N%d -> N%d_%d [label=" %s" weight=100 tooltip="%s" labeltooltip="%s"]`+"\n", nodeID, nodeID, i, weight, weight, weight)
 		if nts := lnts[t.Name]; nts != nil {
 			nodelets += b.numericNodelets(nts, maxNodelets, flatTags, fmt.Sprintf(`N%d_%d`, nodeID, i))
@@ -273,8 +280,8 @@ func (b *builder) numericNodelets(nts []*Tag, maxNumNodelets int, flatTags bool,
 			w, attr = t.FlatValue(), ""
 		}
 		if w != 0 {
-			weight := b.config.FormatValue(w)
-			nodelets += fmt.Sprintf(`N%s_%d [label = "%s" id="N%s_%d" fontsize=8 shape=box3d tooltip="%s"]`+"\n", source, j, t.Name, source, j, weight)
+			weight := b.formatValue(w)
+			nodelets += fmt.Sprintf(`N%s_%d [label = "%s" id="N%s_%d" fontsize=8 shape=box3d tooltip="%s"]`+"\n", source, j, escapeForDot(t.Name), source, j, weight)
 			nodelets += fmt.Sprintf(`%s -> N%s_%d [label=" %s" weight=100 tooltip="%s" labeltooltip="%s"%s]`+"\n", source, source, j, weight, weight, weight, attr)
 		}
 	}
@@ -287,7 +294,7 @@ func (b *builder) addEdge(edge *Edge, from, to int, hasNodelets bool) {
 	if edge.Inline {
 		inline = `\n (inline)`
 	}
-	w := b.config.FormatValue(edge.WeightValue())
+	w := b.formatValue(edge.WeightValue())
 	attr := fmt.Sprintf(`label=" %s%s"`, w, inline)
 	if b.config.Total != 0 {
 		// Note: edge.weight > b.config.Total is possible for profile diffs.
@@ -390,8 +397,9 @@ func multilinePrintableName(info *NodeInfo) string {
 	infoCopy.Name = strings.Replace(infoCopy.Name, "[...]", "[…]", -1)
 	infoCopy.Name = strings.Replace(infoCopy.Name, ".", `\n`, -1)
 	if infoCopy.File != "" {
-		infoCopy.File = filepath.Base(infoCopy.File)
+		infoCopy.File = escapeForDot(filepath.Base(infoCopy.File))
 	}
+	infoCopy.Objfile = escapeForDot(infoCopy.Objfile)
 	return strings.Join(infoCopy.NameComponents(), `\n`) + `\n`
 }
 
@@ -484,6 +492,13 @@ func escapeAllForDot(in []string) []string {
 		out[i] = escapeForDot(in[i])
 	}
 	return out
+}
+
+// escapeLabelTagForDot escapes the name of a label tag. The name is a list of
+// "key:value" labels joined with the DOT line break `\n` (see joinLabels);
+// each label is escaped, the separators are kept.
+func escapeLabelTagForDot(name string) string {
+	return strings.Join(escapeAllForDot(strings.Split(name, `\n`)), `\n`)
 }
 
 // escapeForDot escapes double quotes and backslashes, and replaces Graphviz's
